@@ -591,6 +591,9 @@ impl PtConn {
                 {
                     pt.duplicate_reservations += 1;
                 }
+                if let Some(r) = pt.requests.get_mut(by_request) {
+                    r.issued_receipt = Some(*receipt);
+                }
                 pt.ledger.insert(
                     *receipt,
                     LedgerEntry {
@@ -834,7 +837,7 @@ impl PtConn {
                 prints(&mut out, o.prints);
                 let effect = match (receipt, o.end) {
                     (Some(r), EndSpec::Completion) => {
-                        pt.requests[req].issued_receipt = Some(r);
+                        // issued_receipt is set when the completion is actually emitted (Effect::Book)
                         Effect::Book {
                             receipt: r,
                             amount,
